@@ -49,8 +49,8 @@ MIN_HITS = {
                         'per-position-metrics': 1500, 'fully-masked-sequences': 300}),
 }
 MIN_HITS['quick']['mon:empty'] = 40
-MIN_HITS['quick'].update({'mon:rawmerge': 500, 'batches-as:iterator': 100, 'batches-as:generator': 100})
-MIN_HITS['thorough'].update({'mon:rawmerge': 8000, 'batches-as:iterator': 1500, 'batches-as:generator': 1500})
+MIN_HITS['quick'].update({'mon:rawmerge': 500, 'batches-as:iterator': 100, 'batches-as:generator': 100, 'batches-as:recycled-mapping': 100, 'hit:stat-from-host-buffer': 60})
+MIN_HITS['thorough'].update({'mon:rawmerge': 8000, 'batches-as:iterator': 1500, 'batches-as:generator': 1500, 'batches-as:recycled-mapping': 1500, 'hit:stat-from-host-buffer': 900})
 MIN_HITS['quick']['mon:allpad'] = 40
 MIN_HITS['quick'].update({'hit:half-precision-evaluation': 20, 'hit:haiku-model-evaluation': 40, 'hit:big-cell-merge': 12})
 MIN_HITS['thorough'].update({'hit:half-precision-evaluation': 200, 'hit:haiku-model-evaluation': 500})
@@ -75,6 +75,20 @@ def close(got, ref, n):
   if got.shape != ref.shape or np.any(np.isnan(got)):
     return False
   return core.close(got, ref, rtol=1e-5 * np.sqrt(n + 1.0), atol=1e-6)
+
+
+def _aligned_copy(x):
+  """A writable 64-byte aligned NumPy copy of x (the alignment at which JAX on CPU may adopt a host buffer without copying)."""
+  x = np.asarray(x)
+  raw = np.empty(x.nbytes + 64, np.uint8)
+  off = (-raw.ctypes.data) % 64
+  out = raw[off:off + x.nbytes].view(x.dtype).reshape(x.shape)
+  out[...] = x
+  return out
+
+
+def same_fields(fx, fy):
+  return set(fx) == set(fy) and all(fx[f].shape == fy[f].shape and np.array_equal(fx[f], fy[f]) for f in fx)
 
 
 def fits(small, big):
@@ -441,7 +455,20 @@ def _run_case(ctx, fedjax, jax, jnp, cd, world, rng, debug_case):
     empty_kind = None
     if n == 0:
       empty_kind = 'allpad' if b else 'empty'
-    r = ctx.call('evaluate_model', fedjax.evaluate_model, world.model, params, as_iterable(b), witness=wit)
+    recycle = b and rng.rand() < 0.25
+    if recycle:
+      # a loader that hands out ONE mapping object and refills it for every batch (each batch is complete when it is handed
+      # out; only a consumer that hoards the stream before evaluating it sees anything else)
+      def recycling(bs=list(b)):
+        box = {}
+        for x in bs:
+          box.clear()
+          box.update(x)
+          yield box
+        box.clear()
+      ctx.count('batches-as:recycled-mapping')
+      wit = dict(wit, batches_as='generator yielding one refilled mapping object')
+    r = ctx.call('evaluate_model', fedjax.evaluate_model, world.model, params, recycling() if recycle else as_iterable(b), witness=wit)
     if r.ok:
       judge(ctx, 'evalmodel', kind, world, r.value, ref_res, n, wit, empty_kind)
 
@@ -586,6 +613,35 @@ def _run_case(ctx, fedjax, jax, jnp, cd, world, rng, debug_case):
         ctx.check(same(za, a, True) and same(az, a, True), 'identity/zero-not-identity',
                   f'{name}: zero.merge(a) or a.merge(zero) differs from a (values or shape)',
                   dict(wit, a=fa, zero_a=fields(za), a_zero=fields(az), zero=fields(z)))
+
+  # ---- statistics re-created on the host (SumStat.new / MeanStat.new over NumPy buffers, as host-side aggregation of pulled
+  #      statistics does), the buffers then being reused by the caller: a statistic is a value, it keeps what it was given
+  with jax.disable_jit():
+    for name in law_names:
+      a, b_ = sa[name], sb[name]
+      if type(a) not in (M.SumStat, M.MeanStat):
+        continue
+      bufs = [_aligned_copy(np.asarray(getattr(a, f))) for f in (('accum',) if type(a) is M.SumStat else ('accum', 'weight'))]
+      wit = dict(wit0, metric=name, metric_args=world.args[name], stat_type=type(a).__name__)
+      r = ctx.call('Stat.new[host buffers]', lambda: type(a).new(*bufs), witness=wit)
+      if not r.ok:
+        continue
+      mine = r.value
+      before = fields(mine)
+      for bf in bufs:
+        bf[...] = np.asarray(13, bf.dtype) if bf.dtype != np.bool_ else True
+      r = ctx.call('Stat.merge', lambda: mine.merge(b_), witness=wit)
+      ctx.count('hit:stat-from-host-buffer')
+      after = fields(mine)
+      ok = all(np.array_equal(before[f], after[f]) for f in before) and same_fields(before, fields(a))
+      ctx.check(ok, 'value/stat-follows-the-host-buffer-it-was-made-from',
+                f'{name}: a statistic made by {type(a).__name__}.new from host arrays changed when the caller reused those arrays',
+                dict(wit, made=before, now=after, source=fields(a)))
+      if r.ok and ok:
+        ref_m = a.merge(b_)
+        ctx.check(same_fields(fields(r.value), fields(ref_m)), 'value/merge-of-host-made-stat-differs',
+                  f'{name}: merge of a host-made statistic differs from the merge of the original',
+                  dict(wit, got=fields(r.value), expected=fields(ref_m)))
 
   # ---- classification of the case
   hand = batchings[2]
@@ -889,3 +945,5 @@ LEVEL_TEXT = ('For every built-in metric class and several constructor settings,
 LEVEL_NOTE = ('The oracle is fedjax\'s own evaluate_example/merge (as the statement defines it), cross-checked against float64 '
               'sums of the single-example fields; definitions of the metrics themselves are C14\'s subject. Trusts NumPy and the '
               'harness batch builders.')
+TECHNIQUE += '; a loader that refills one mapping object per batch; statistics re-created from reused host buffers'
+RULE += ' Wave-8 addition: a quarter of the evaluate_model calls receive a generator that yields ONE mapping object refilled for every batch; SumStat/MeanStat re-created by .new from 64-byte aligned NumPy buffers must keep their value when the caller overwrites the buffers.'
